@@ -187,3 +187,27 @@ func (n *VerifNode) Namespaces() (byID []VerifGroup, byName []VerifGroup) {
 	sort.Slice(byName, func(i, j int) bool { return byName[i].KeyName < byName[j].KeyName })
 	return
 }
+
+// DiffDefault is getJournalDiffLocked3 (the limits HandleGetMetrics3 really uses)
+func (n *VerifNode) DiffDefault(from int64) ([]tlmetadata.Event, int64) {
+	var ret tlmetadata.GetJournalResponsenew
+	n.J.mu.RLock()
+	n.J.getJournalDiffLocked3(from, &ret)
+	n.J.mu.RUnlock()
+	return ret.Events, ret.CurrentVersion
+}
+
+// VerifChunkBoundaries: offsets at which a chunk of the saved file ends (the last one is the file length)
+func VerifChunkBoundaries(file []byte) []int {
+	var res []int
+	off := 0
+	for off+8+16 <= len(file) {
+		size := int(uint32(file[off+4]) | uint32(file[off+5])<<8 | uint32(file[off+6])<<16 | uint32(file[off+7])<<24)
+		off += 8 + size + 16
+		if off > len(file) {
+			break
+		}
+		res = append(res, off)
+	}
+	return res
+}
